@@ -289,18 +289,32 @@ func c11columnsChecklist(c *RC, fn *Func, q string) {
 		return true
 	})
 	// (4) data stored at the column's own index, as a direct statement of the loop body
+	// — of the checking loop, or of a later top-level loop over the same columns
+	// (binding the columns needs the final capacity, which is only known after
+	// every column was examined)
 	stored := false
-	for _, st := range loop.Body.List {
-		as, ok := st.(*ast.AssignStmt)
-		if !ok || len(as.Lhs) != 1 || len(as.Rhs) != 1 {
-			continue
+	var loops []*ast.RangeStmt
+	for _, st := range fn.Body.List {
+		if r, ok := st.(*ast.RangeStmt); ok && r.Key != nil && nospace(r.X) == nospace(loop.X) {
+			loops = append(loops, r)
 		}
-		ix, ok := as.Lhs[0].(*ast.IndexExpr)
-		if !ok || fieldOf(ix.X) != "frame.Frame.data" || expr(ix.Index) != iv {
-			continue
-		}
-		if k, ok := as.Rhs[0].(*ast.CallExpr); ok && fn.Pkg.CalleeName(k) == "frame.newData" {
-			stored = true
+	}
+	if len(loops) == 0 {
+		loops = append(loops, loop)
+	}
+	for _, lp := range loops {
+		for _, st := range lp.Body.List {
+			as, ok := st.(*ast.AssignStmt)
+			if !ok || len(as.Lhs) != 1 || len(as.Rhs) != 1 {
+				continue
+			}
+			ix, ok := as.Lhs[0].(*ast.IndexExpr)
+			if !ok || fieldOf(ix.X) != "frame.Frame.data" || expr(ix.Index) != expr(lp.Key) {
+				continue
+			}
+			if k, ok := as.Rhs[0].(*ast.CallExpr); ok && fn.Pkg.CalleeName(k) == "frame.newData" {
+				stored = true
+			}
 		}
 	}
 	// (0) the empty frame is returned exactly when there are no columns
